@@ -142,6 +142,15 @@ Theorem C10_neg_representation_independent :
 Proof. exact (@jac_neg_respects). Qed.
 Print Assumptions C10_neg_representation_independent.
 
+(* commutativity on the elements: a + b and b + a represent the same element, whichever branches the
+   two calls take (identity, chord, tangent, inverse) *)
+Theorem C10_add_commutative :
+  forall (K : Type) (O : Fops K), Flaws O -> forall a b : jac (K:=K),
+  fadd O (f1 O) (f1 O) <> f0 O -> (jz a <> f0 O -> jy a <> f0 O) -> (jz b <> f0 O -> jy b <> f0 O) ->
+  jeqv O (jac_add O a b) (jac_add O b a).
+Proof. exact (@jac_add_comm). Qed.
+Print Assumptions C10_add_commutative.
+
 (* what is marshalled (the normal form) is the same for all representations of a finite element *)
 Theorem C10_normal_form_canonical :
   forall (K : Type) (O : Fops K), Flaws O -> forall a a' : jac (K:=K),
